@@ -26,6 +26,9 @@
 (*     StopCall   logged before Stop() is called (absent in strict replays *)
 (*                where Stop is one step)                                  *)
 (*     Stop       res ok | blocked         (logged when Stop() returned)   *)
+(*     Crash      res panic: the process died with a panic in the manager's  *)
+(*                code (every call blocks forever, every subscriber loses  *)
+(*                what it had not read); k = 1 for "send on closed channel"*)
 (*     Quiesce    s = bit mask of the subscribers that do NOT drain; all   *)
 (*                others have read until nothing more arrives              *)
 (*     anything else (internal model steps) leaves the abstract state alone*)
@@ -96,7 +99,8 @@ Viol(a, o, act, a2, o2) ==
   \cup (IF \E r \in a2.reg : /\ IsPrefix(o2.recv[r.s], ExpR(r, a2.emitted))
                              /\ ~IsPrefix(o2.recv[r.s], ExpR(r, LimOf(a2, r.s)))
         THEN {"NothingAfterCancelOrStop"} ELSE {})
-  \cup (IF act.res = "blocked" THEN {"NeverBlocks"} ELSE {})
+  \cup (IF act.res \in {"blocked", "panic"} THEN {"NeverBlocks"} ELSE {})
+  \cup (IF act.res = "panic" /\ act.k = 1 THEN {"NothingAfterClose"} ELSE {})
   \cup (IF \E s \in 1..Len(o.closed) :
              o.closed[s] = 1 /\ (o2.recv[s] # o.recv[s] \/ o2.closed[s] # 1)
         THEN {"NothingAfterClose"} ELSE {})
